@@ -807,25 +807,37 @@ func (r *Round) Clone() RoundI {
 		shares[k] = s.Clone()
 	}
 
-	return &Round{
+	// the fields below have their own synchronisation (atomics, the timeout
+	// counter's mutex); r.mutex does not cover them
+	r.timeoutCounter.mutex.RLock()
+	tc := timeoutCounter{
+		prrs:  r.timeoutCounter.prrs,
+		perm:  append([]string(nil), r.timeoutCounter.perm...),
+		count: r.timeoutCounter.count,
+		votes: make(map[string]int, len(r.timeoutCounter.votes)),
+	}
+	for k, v := range r.timeoutCounter.votes {
+		tc.votes[k] = v
+	}
+	r.timeoutCounter.mutex.RUnlock()
+
+	clone := &Round{
 		Number:           r.Number,
-		RandomSeed:       r.RandomSeed,
+		RandomSeed:       r.GetRandomSeed(),
 		Block:            r.Block.Clone(),
 		BlockHash:        r.BlockHash,
 		VRFOutput:        r.VRFOutput,
 		minerPerm:        mp,
-		phase:            r.phase,
+		phase:            r.getState(),
 		finalizingState:  r.finalizingState,
 		proposedBlocks:   pblocks,
 		notarizedBlocks:  nblocks,
 		shares:           shares,
-		softTimeoutCount: r.softTimeoutCount,
-		vrfStartTime:     r.vrfStartTime,
-		timeoutCounter: timeoutCounter{
-			prrs:  r.timeoutCounter.prrs,
-			perm:  r.timeoutCounter.perm,
-			count: r.timeoutCounter.count,
-			votes: r.timeoutCounter.votes,
-		},
+		softTimeoutCount: atomic.LoadInt32(&r.softTimeoutCount),
+		timeoutCounter:   tc,
 	}
+	if t := r.vrfStartTime.Load(); t != nil {
+		clone.vrfStartTime.Store(t)
+	}
+	return clone
 }
